@@ -969,6 +969,7 @@ class CompositeEnvelope:
                 and so.envelope is not None
                 and so.index is not None
                 and not isinstance(so.index, tuple)
+                and not any(so is absorbed for absorbed in state_order)
             ):
                 assert isinstance(so.envelope.state, jnp.ndarray)
                 if minimum_expansion_level is ExpansionLevel.Vector:
